@@ -26,11 +26,72 @@ def run_one(mod, case):
         out = {"purity_error": str(e)}
         viol.append("argument mutated: %s" % e)
         return out, viol
+    except Exception as e:
+        # every exception a property allows is caught inside run_impl; anything else is behaviour the model does not have
+        out = {"purity_error": "unexpected exception", "unexpected": "".join(traceback.format_exception_only(type(e), e)).strip()}
+        viol.append("the implementation raised an exception outside the documented ones: %s" % out["unexpected"])
+        return out, viol
     try:
         viol.extend(mod.oracle(case, out) or [])
     except Exception as e:  # an oracle crash is an infrastructure problem, surfaced loudly
         viol.append("oracle crashed: %s" % "".join(traceback.format_exception_only(type(e), e)).strip())
     return out, viol
+
+
+def run_isolated(mod, cases, log):
+    """Run the implementation side in child processes so that a crash of the C extension (segmentation fault, abort)
+    becomes a reported violation with the crashing case as replay instead of killing the check."""
+    import pickle, struct, signal
+    results = [None] * len(cases)
+    start, restarts = 0, 0
+    while start < len(cases):
+        r, w = os.pipe()
+        pid = os.fork()
+        if pid == 0:
+            os.close(r)
+            try:
+                with os.fdopen(w, "wb") as f:
+                    for i in range(start, len(cases)):
+                        f.write(struct.pack("<I", i)); f.flush()                # announce, then report
+                        blob = pickle.dumps(run_one(mod, cases[i]))
+                        f.write(struct.pack("<I", len(blob))); f.write(blob); f.flush()
+            finally:
+                os._exit(0)
+        os.close(w)
+        current = None
+        with os.fdopen(r, "rb") as f:
+            while True:
+                h = f.read(4)
+                if len(h) < 4:
+                    break
+                current = struct.unpack("<I", h)[0]
+                h = f.read(4)
+                if len(h) < 4:
+                    break
+                n = struct.unpack("<I", h)[0]
+                blob = f.read(n)
+                if len(blob) < n:
+                    break
+                results[current] = pickle.loads(blob)
+                current = None
+        _, status = os.waitpid(pid, 0)
+        if current is None and all(x is not None for x in results[start:]):
+            break
+        if current is None:
+            current = next(i for i in range(start, len(cases)) if results[i] is None)
+        sig = os.WTERMSIG(status) if os.WIFSIGNALED(status) else None
+        what = "the process died (%s) while the implementation ran this case" % (
+            ("signal %d %s" % (sig, signal.Signals(sig).name)) if sig else "exit status %d" % status)
+        results[current] = ({"purity_error": "crash", "crash": what}, [what])
+        log.append("case %d: %s" % (current, what))
+        start = current + 1
+        restarts += 1
+        if restarts > 25:
+            for i in range(start, len(cases)):
+                if results[i] is None:
+                    results[i] = ({"purity_error": "not run", "crash": "not run after repeated crashes"}, [])
+            break
+    return results
 
 
 def known_match(known, prop, case, what):
@@ -96,15 +157,19 @@ def main():
         outs, tagc = [], collections.Counter()
         distinct = set()
         oracle_viol = {}
+        isolated = run_isolated(mod, cases, log) if getattr(mod, "ISOLATE", False) else None
         for i, c in enumerate(cases):
-            o, v = run_one(mod, c)
+            o, v = isolated[i] if isolated else run_one(mod, c)
             outs.append(o)
+            if v:
+                oracle_viol[i] = v
+            if isinstance(o, dict) and "purity_error" in o:
+                tagc["aborted:" + o["purity_error"][:40]] += 1
+                continue
             for t in mod.tags(c, o):
                 tagc[t] += 1
             if mod.nontrivial(c, o):
                 distinct.add(C.case_hash(c))
-            if v:
-                oracle_viol[i] = v
 
         if hasattr(mod, "batch_check"):          # checks over the whole case list (e.g. one sanitized process)
             try:
@@ -233,7 +298,11 @@ def replay(prop, mod, path):
         if hasattr(mod, "pre_import"):
             mod.pre_import(scratch0)
         C.import_qubovert()
-        o, v = run_one(mod, c)
+        o, v = run_isolated(mod, [c], [])[0] if getattr(mod, "ISOLATE", False) else run_one(mod, c)
+    if isinstance(o, dict) and "purity_error" in o:
+        print("implementation:", json.dumps(o, default=str)[:2000])
+        print("VIOLATION property=%s replay=%s" % (prop, path))
+        return 1
     with C.Scratch() as scratch:
         C.coq_build([])
         lit = mod.literal(c, o)
